@@ -21,7 +21,7 @@ docs/source/ser.rst.
 from __future__ import annotations
 
 import json
-from dataclasses import asdict
+from dataclasses import asdict, fields, is_dataclass
 from datetime import datetime, timezone
 from pathlib import Path
 from typing import IO, Optional, Dict, Any
@@ -196,7 +196,13 @@ class JsonlTraceDriver(TraceDriver):
         # Convert dataclass to dict and remove top-level None values so the
         # emitted JSON conforms to the SER schema (which disallows null for
         # object fields like 'error').
-        record = asdict(event)
+        # Only the record's own dataclasses are converted: asdict() on the whole
+        # event would also rebuild every mapping inside it through its class,
+        # and a dict subclass such as collections.Counter given as a parameter
+        # value is not rebuilt to an equal mapping.
+        record = {f.name: getattr(event, f.name) for f in fields(event)}
+        if is_dataclass(record.get("context_delta")):
+            record["context_delta"] = asdict(record["context_delta"])
         record = {k: v for k, v in record.items() if v is not None}
         try:
             self._file.write(json.dumps(record, sort_keys=True) + "\n")
